@@ -92,7 +92,9 @@ def handle (op : String) (j : Json) : Except String Json := do
     | some e => pure (Json.mkObj [("raises", errName e)])
     | none => pure (Json.mkObj [("out", jstr (serialize ll sib pns isRoot d))])
   | "xml.write" =>
-    let k ← kindOf (← j.getObjValAs? String "kind")
+    let k ← match j.getObjValAs? String "suffix" with
+      | .ok sfx => pure (fragKindOfSuffix sfx.toList)
+      | .error _ => kindOf (← j.getObjValAs? String "kind")
     let d ← docOf (← j.getObjVal? "doc")
     match elemErr [] d.root with
     | some e => pure (Json.mkObj [("raises", errName e)])
